@@ -29,6 +29,10 @@ func c08(c *Ctx) {
 		rng := c.Rng(i)
 		class := []string{"small", "mid", "deep", "wide", "one", "small"}[i%6]
 		mode := modeFor(i, rng)
+		if i == 9 {
+			// once per run: more than 65536 documents, one term in all of them
+			class, mode = "huge", hugeMode(i)
+		}
 		a := model.Gen(rng, class, model.GenOpts{NoBig: true, IDPrefix: "a", Syn: rng.Intn(6) == 0})
 		b := model.Gen(rng, []string{"small", "mid", "one", "empty"}[rng.Intn(4)], model.GenOpts{NoBig: true, IDPrefix: "b"})
 		ma, mb := model.Build(a), model.Build(b)
@@ -62,7 +66,7 @@ func c08(c *Ctx) {
 				return
 			}
 			defer sb.Close()
-			light := i%4 != 0
+			light := i%4 != 0 || class == "huge"
 			oracle.CheckDictionary(c.R, id+"/built", sa, ma, rng, light)
 			c.R.Inc("dict_provenance_built", 1)
 			pa := c.Scratch.Path("c08a")
